@@ -40,6 +40,10 @@ impl<'ctx> TryFrom<&Amount<'ctx>> for SingleAmount<'ctx> {
     type Error = EvalError;
 
     fn try_from(value: &Amount<'ctx>) -> Result<Self, Self::Error> {
+        if value.values.len() > 1 {
+            // Must not pick an arbitrary commodity out of the multi-commodity amount.
+            return Err(EvalError::SingleAmountRequired);
+        }
         let (commodity, value) = value
             .values
             .iter()
